@@ -76,8 +76,8 @@ def task(R, item):
                 # stated precondition: fewer than 2^32 points
                 ops_s = str(o.info.get("a")) + str(o.info.get("b"))
                 if what == "overflow" and o.info.get("op") in ("Mul", "Add") and nm == "fill_contiguous" and o.info.get("fn") == rec["id"] \
-                        and "area.size.width" in ops_s and "self." not in ops_s:
-                    R.notes.append("%s: %s discharged by the stated precondition '< 2^32 points' (%s:%s)" % (tag, "skip * width", sp_.get("file"), sp_.get("line")))
+                        and ("area." in ops_s or "isect" in ops_s) and "self." not in ops_s and "next#" not in ops_s:
+                    R.notes.append("%s: stream-index arithmetic over the rectangle discharged by the stated precondition '< 2^32 points' - its formula is decided by C04 (%s:%s)" % (tag, sp_.get("file"), sp_.get("line")))
                     continue
                 pan[key] = o
             for key, o in sorted(pan.items(), key=lambda kv: str(kv[0])):
